@@ -28,7 +28,7 @@ type VerifHooks struct {
 	PoolGet func(kind, class int) interface{}
 	// PoolPut is called after the library has prepared (zeroed) the item, in place of sync.Pool.Put.
 	PoolPut func(kind, class int, v interface{})
-	// Finalizer is called in place of runtime.SetFinalizer(obj, destroyIterator) for MultIterators.
+	// Finalizer is called in place of runtime.SetFinalizer(obj, destroyIterator) for iterators.
 	Finalizer func(obj interface{})
 }
 
@@ -82,11 +82,11 @@ func verifFinalizer(obj interface{}) {
 	}
 	// no finalizer goroutine under simulation: it would run library code outside the scheduler
 	runtime.SetFinalizer(obj, nil)
-	if _, ok := obj.(*MultIterator); ok {
+	if _, ok := obj.(Iterator); ok {
+		// MultIterators and FlatMaskedIterators: the simulator decides when (and whether) destroyIterator runs
 		hh.Finalizer(obj)
 	}
-	// destroyHeader (clears an unreachable header) and destroyIterator on a FlatMaskedIterator
-	// (does nothing) have no observable effect: they are simply not run.
+	// destroyHeader only clears a header, and headers stay reachable through the header pool: not simulated.
 }
 
 // VerifRunFinalizer runs what the garbage collector would have run for obj.
